@@ -893,7 +893,8 @@ def _mini_eval(fn: ast.FunctionDef, env: dict, allowed_calls: set[str], max_step
     env = dict(env)
     steps = 0
     SAFE = {"set": set, "any": any, "all": all, "bool": bool, "len": len, "frozenset": frozenset, "list": list, "isinstance": isinstance,
-            "tuple": tuple}
+            "tuple": tuple, "repr": repr, "str": str, "min": min, "max": max, "sorted": sorted, "enumerate": enumerate, "zip": zip,
+            "range": range, "dict": dict, "int": int}
 
     def check(e):
         for n in ast.walk(e):
@@ -902,7 +903,7 @@ def _mini_eval(fn: ast.FunctionDef, env: dict, allowed_calls: set[str], max_step
                 name = f.attr if isinstance(f, ast.Attribute) else (f.id if isinstance(f, ast.Name) else None)
                 if local_calls and isinstance(f, ast.Name) and f.id in env:
                     continue    # a callable the rule itself handed in (or one bound from it)
-                if name not in allowed_calls and name not in SAFE and name not in ("add", "update", "union"):
+                if name not in allowed_calls and name not in SAFE and name not in ("add", "update", "union", "append", "extend"):
                     raise EvalError(f"call `{norm_stmt(f)}` outside the evaluable subset")
             elif isinstance(n, (ast.Lambda, ast.Yield, ast.YieldFrom, ast.Await)):
                 raise EvalError(type(n).__name__)
@@ -910,7 +911,9 @@ def _mini_eval(fn: ast.FunctionDef, env: dict, allowed_calls: set[str], max_step
     def ev(e):
         check(e)
         try:
-            return eval(compile(ast.fix_missing_locations(ast.Expression(body=e)), "<c17>", "eval"), {"__builtins__": SAFE}, env)  # noqa: S307
+            # names are looked up in one namespace (globals) so that generator expressions, which have their own scope, see them
+            env["__builtins__"] = SAFE
+            return eval(compile(ast.fix_missing_locations(ast.Expression(body=e)), "<c17>", "eval"), env)  # noqa: S307
         except EvalError:
             raise
         except Exception as ex:
@@ -974,6 +977,11 @@ def _mini_eval(fn: ast.FunctionDef, env: dict, allowed_calls: set[str], max_step
                     env[st.target.id] = cur + v
                 else:
                     raise EvalError("augmented operator")
+            elif isinstance(st, ast.AugAssign) and isinstance(st.target, ast.Attribute) and isinstance(st.op, (ast.Add, ast.Sub)):
+                obj = ev(st.target.value)
+                cur = getattr(obj, st.target.attr)
+                v = ev(st.value)
+                setattr(obj, st.target.attr, cur + v if isinstance(st.op, ast.Add) else cur - v)
             elif isinstance(st, ast.If):
                 run(st.body if ev(st.test) else st.orelse)
             elif isinstance(st, ast.For):
@@ -989,6 +997,26 @@ def _mini_eval(fn: ast.FunctionDef, env: dict, allowed_calls: set[str], max_step
                         continue
                 if not broke:
                     run(st.orelse)
+            elif isinstance(st, ast.While):
+                broke = False
+                while ev(st.test):
+                    steps += 1
+                    if steps > max_steps:
+                        raise EvalError("too many steps")
+                    try:
+                        run(st.body)
+                    except _Brk:
+                        broke = True
+                        break
+                    except _Cont:
+                        continue
+                if not broke:
+                    run(st.orelse)
+            elif isinstance(st, ast.Try) and not st.handlers and not st.orelse:
+                try:
+                    run(st.body)
+                finally:
+                    run(st.finalbody)
             elif isinstance(st, ast.Return):
                 raise _Ret(ev(st.value) if st.value is not None else None)
             elif isinstance(st, ast.Break):
@@ -1010,6 +1038,34 @@ def _mini_eval(fn: ast.FunctionDef, env: dict, allowed_calls: set[str], max_step
 class _Obj:
     def __init__(self, **kw):
         self.__dict__.update(kw)
+
+
+class SourceSelf:
+    """A fake `self` whose methods are the class's own methods *evaluated from source* by _mini_eval, on top of the primitives
+    the rule supplies (position bookkeeping, token matchers).  Lets a rule evaluate a combinator together with the combinators
+    it is built from, whatever the division of labour between them."""
+
+    def __init__(self, methods: dict, prims: dict, max_steps: int = 4000):
+        self.__dict__["_m"] = methods
+        self.__dict__["_p"] = prims
+        self.__dict__["_steps"] = max_steps
+
+    def __getattr__(self, name):
+        if name in self._p:
+            return self._p[name]
+        if name in self._m:
+            fn = self._m[name]
+            params = [a.arg for a in fn.args.args]
+            allowed = set(self._m) | set(self._p)
+
+            def call(*args, **kw):
+                env = dict(zip(params, (self,) + args))
+                if fn.args.vararg is not None:
+                    env[fn.args.vararg.arg] = tuple(args[len(params) - 1:])
+                env.update(kw)
+                return _mini_eval(fn, env, allowed, max_steps=self._steps, local_calls=True)
+            return call
+        raise AttributeError(name)
 
 
 def rule_t5(chk: Check, C: Classes):
@@ -1261,3 +1317,85 @@ def run(chk: Check):
     rule_combinators(chk)
     from .c18 import rule_w2
     rule_w2(chk)
+
+
+def eval_left_rec(wrapper: ast.FunctionDef, verbose: bool, stream: tuple, second_call: bool = True):
+    """Evaluate the left-recursion wrapper (from source) around the rule  r: r '+' 'n' | 'n'  on a token stream over {n, +, x}.
+    Returns (tree, end position, cached entry, rule-body runs during a second call at the same position)."""
+    st = {"pos": 0, "runs": 0}
+    me = _Obj(_cache={}, _verbose=verbose, _level=0, in_recursive_rule=0)
+    me._mark = lambda: st["pos"]
+    me._reset = lambda m: st.__setitem__("pos", m)
+    me.showpeek = lambda: "tok"
+
+    def tok(c):
+        if st["pos"] < len(stream) and stream[st["pos"]] == c:
+            st["pos"] += 1
+            return c
+        return None
+
+    def method(self_):
+        st["runs"] += 1
+        m = st["pos"]
+        left = call()
+        if left and tok("+") and tok("n"):
+            return ("add", left, "n")
+        st["pos"] = m
+        if tok("n"):
+            return "n"
+        st["pos"] = m
+        return None
+
+    def call():
+        env = {"self": me, "method": method, "method_name": "r", "print": lambda *a, **k: None}
+        return _mini_eval(wrapper, env, {"_mark", "_reset", "showpeek", "print", "method"}, max_steps=3000, local_calls=True)
+    tree = call()
+    end = st["pos"]
+    entry = me._cache.get((0, "r", ()))
+    runs2 = None
+    if second_call:
+        st["pos"] = 0
+        before = st["runs"]
+        t2 = call()
+        runs2 = (st["runs"] - before, t2 == tree, st["pos"] == end)
+    return tree, end, entry, runs2, me._level, me.in_recursive_rule
+
+
+def left_rec_expected(stream: tuple):
+    if not stream or stream[0] != "n":
+        return None, 0
+    tree, pos = "n", 1
+    while pos + 1 < len(stream) and stream[pos] == "+" and stream[pos + 1] == "n":
+        tree = ("add", tree, "n")
+        pos += 2
+    return tree, pos
+
+
+def eval_memoize(wrapper: ast.FunctionDef, verbose: bool, succeeds: bool, args: tuple = ()):
+    """Evaluate the plain memo wrapper (from source) around a rule body that consumes two tokens and returns a value (or fails and
+    returns None with the position wherever it got to).  Returns (first result, end position, cache entry, second-call facts)."""
+    st = {"pos": 3, "runs": 0}
+    me = _Obj(_cache={}, _verbose=verbose, _level=0)
+    me._mark = lambda: st["pos"]
+    me._reset = lambda m: st.__setitem__("pos", m)
+    me.showpeek = lambda: "tok"
+
+    def method(self_, *a):
+        st["runs"] += 1
+        if succeeds:
+            st["pos"] += 2
+            return ("T", a)
+        return None
+
+    def call():
+        env = {"self": me, "method": method, "method_name": "r", "print": lambda *a, **k: None, "repr": repr}
+        if wrapper.args.vararg is not None:
+            env[wrapper.args.vararg.arg] = tuple(args)
+        return _mini_eval(wrapper, env, {"_mark", "_reset", "showpeek", "print", "method", "join", "repr"}, max_steps=2000, local_calls=True)
+    tree = call()
+    end = st["pos"]
+    entry = me._cache.get((3, "r", tuple(args)))
+    st["pos"] = 3
+    before = st["runs"]
+    t2 = call()
+    return tree, end, entry, (st["runs"] - before, t2 == tree, st["pos"] == end), me._level
